@@ -103,6 +103,26 @@ AccurateV      == done => /\ \A i \in D : Isolated(i) => i \in P
                           /\ \A i \in P : \A j \in P \ {i} : ~ MoreThanSlack(j, i)
 AccuratePRobust == robust => AccurateP
 AccurateVRobust == robust => AccurateV
+\* ---- bridge to the relation-level theorems (VOAccuracyAbs, proved for every design set in proofs/VOAccuracyProofs): the conditions
+\* V1-V3 / W1, W3 under which they hold are facts of the lattice geometry of THIS instantiation.  Evaluated once (ASSUME in the MC module).
+PtsOf(b)   == { p \in Grid : Contains(b, p) }
+Phi(z)     == LET RECURSIVE F(_)  F(n) == IF n = 0 THEN 0 ELSE Dot(W[n], z) + F(n-1) IN F(K)
+RankBox(b) == LET v == { Phi(z) : z \in PtsOf(b) } IN CHOOSE x \in v : \A y \in v : y <= x
+Exceeds(z, z2)  == \A n \in 1..K : Dot(W[n], Sub(z2, z)) > AE[n]                   \* z2 exceeds z by more than eps (its gap is > eps)
+MoreThan(z, z2) == \A n \in 1..K : Dot(W[n], Sub(Sub(z2, z), SC)) > 0              \* z2 dominates z by more than the slack
+BridgeBox ==
+   \A p \in Boxes \X Boxes :
+      /\ DomTab[p] => \A z \in PtsOf(p[1]) : \A z2 \in PtsOf(p[2]) : InCone(W, Sub(Add(z2, SD), z))                       \* V1 / W1
+      /\ (Fam = "paveba" /\ DomTab[p]) => RankBox(p[2]) > RankBox(p[1])                                                     \* V2
+      /\ \A z \in PtsOf(p[1]) : \A z2 \in PtsOf(p[2]) :
+            (IF Fam = "paveba" THEN Exceeds(z, z2) ELSE MoreThan(z, z2)) => CovTab[p][2]                                    \* V3 / W3
+BridgeTruth ==
+   /\ \A a, b, c \in Grid : (Exceeds(a, b) /\ InCone(W, Sub(c, b))) => Exceeds(a, c)
+   /\ \A a \in Grid : ~ Exceeds(a, a)
+   /\ \A a, b, c \in Grid : (InCone(W, Sub(b, a)) /\ InCone(W, Sub(c, b))) => InCone(W, Sub(c, a))
+   /\ (Fam = "vogp" => SD = SC)
+Bridge == Kind = "box" /\ Fam \in {"paveba", "vogp"} /\ BridgeBox /\ BridgeTruth
+
 Sane           == S \cap P = {} /\ U \subseteq P /\ (done => S = {})
 \* the future depends on the displayed regions only through the STALE regions of inactive members of P (PaVeBa family:
 \* useful_updating reads them); everything else is redrawn next round.  The view keeps exactly those.
